@@ -283,22 +283,33 @@ static std::vector<double> insideNodes(double a, double b, int count) {      // 
 
 static int g_splineJudged = 0, g_bicubicJudged = 0, g_funcJudged = 0;
 
-static void splineCase(vh::Rng& g, bool big, int forceMode = -1) {
+static void splineCase(vh::Rng& g, bool big, int forceMode = -1, int forceLayout = -1) {
     int degree = 1 + 2 * g.below(4);                  // 1,3,5,7
     int m = (degree + 1) / 2;
     // fit mode: 0 interpolating (p = 0), 1 fixed smoothing parameter p > 0, 2 GCV, 3 known error variance, 4 known residual dof
     int mode = forceMode >= 0 ? forceMode : (g.below(2) == 0 ? 0 : 1 + g.below(4));
     static const char* modeName[] = {"interp", "smooth", "gcv", "errvar", "dof"};
     int n = 2 * m + (mode >= 2 ? 2 : 0) + g.below(big ? 40 : 14);
-    bool uniform = g.below(4) == 0;
+    // knot layout: 0 uniform, 1 random spacing, 2 one long LAST interval after short ones, 3 one long FIRST interval, 4 spacing
+    // growing geometrically, 5 shrinking geometrically.  GCVSPLUtil::splder seeds search_ with the interval a *uniform* grid
+    // would give, ceil(n (t-x0)/(xn-x0)); layouts 2..5 make that hint wrong by many intervals in either direction, so every
+    // branch of search_ (hint right, off by one, bisection below / above the hint) is exercised.
+    static const char* layoutName[] = {"uniform", "random", "longlast", "longfirst", "growing", "shrinking"};
+    int layout = forceLayout >= 0 ? forceLayout : (g.below(3) == 0 ? 2 + g.below(4) : g.below(4) == 0 ? 0 : 1);
     Vector x(n), y(n);
-    double xx = g.signedMag(0.1, 5);
-    for (int i = 0; i < n; ++i) { x[i] = xx; xx += uniform ? 0.5 : g.range(0.2, 1.0); }
+    double xx = g.signedMag(0.1, 5), geo = layout == 4 ? 0.05 : 2.0, ratio = g.range(1.3, 1.8);
+    for (int i = 0; i < n; ++i) {
+        x[i] = xx;
+        double h = layout == 0 ? 0.5 : layout == 1 ? g.range(0.2, 1.0) : layout == 2 ? (i == n - 2 ? g.range(3, 20) : g.range(0.05, 0.3))
+                 : layout == 3 ? (i == 0 ? g.range(3, 20) : g.range(0.05, 0.3)) : geo;
+        if (layout == 4) geo = std::min(geo * ratio, 5.0); if (layout == 5) geo = std::max(geo / ratio, 0.02);
+        xx += h;
+    }
     double wv = g.range(0.3, 2), noise = mode == 0 ? 0 : g.range(0.01, 0.2);
     bool wiggly = mode == 0 || g.coin();
     for (int i = 0; i < n; ++i) y[i] = wiggly ? g.signedMag(0.1, 3) : 2 * std::sin(wv * x[i]) + noise * g.range(-1, 1);
     bool vec3 = g.below(4) == 0;
-    std::string tag = "spline.deg" + std::to_string(degree) + "." + modeName[mode] + (vec3 ? ".vec3" : ".real");
+    std::string tag = "spline.deg" + std::to_string(degree) + "." + modeName[mode] + "." + layoutName[layout] + (vec3 ? ".vec3" : ".real");
     std::string key = std::string("spline.") + modeName[mode] + ".deg" + std::to_string(degree);
     Vector_<Vec3> y3(n);
     for (int i = 0; i < n; ++i) y3[i] = Vec3(y[i], wiggly ? g.signedMag(0.1, 3) : std::cos(wv * x[i]) + noise * g.range(-1, 1), g.signedMag(0.1, 3));
@@ -320,20 +331,25 @@ static void splineCase(vh::Rng& g, bool big, int forceMode = -1) {
         return (order & 1) ? sp.calcDerivative(order, t) : sp.calcDerivative(comps(order), Vector(1, t));   // both signatures
     };
     double ysc = 0; for (int i = 0; i < n; ++i) for (int cmp = 0; cmp < ncomp; ++cmp) ysc = std::max(ysc, std::fabs(vec3 ? y3[i][cmp] : y[i]));
-    // correspondence records: a few evaluation points (knots, interior, outside the knot range), every derivative order 0..2m
+    // correspondence records: a few evaluation points (knots, interior), every derivative order 0..2m
     std::vector<std::vector<double> > coef(ncomp, std::vector<double>(n));
     bool finite = true;
     for (int cmp = 0; cmp < ncomp; ++cmp)
         for (int i = 0; i < n; ++i) { coef[cmp][i] = vec3 ? sp3.getControlPointValues()[i][cmp] : sp.getControlPointValues()[i]; finite = finite && std::isfinite(coef[cmp][i]); }
-    int npts = 3;
+    // evaluation points: always one early in the LAST interval and one late in the FIRST (where the uniform-grid hint is worst
+    // for layouts 2..5), then random ones (a knot, the first/last knot, interior).  Only inside [x0, xn]: GCVSPLUtil::splder
+    // asserts t within the knot range, so evaluation outside is not a legal call.
+    int npts = 4;
     for (int r = 0; r < npts; ++r) {
         int i = g.below(n - 1);
-        int kind = g.below(7);
-        double t = (kind == 0) ? x[i] : (kind == 1) ? x[0] : (kind == 2) ? x[n - 1] : (kind == 5) ? x[0] - g.range(0.01, 2) : (kind == 6) ? x[n - 1] + g.range(0.01, 2)
+        int kind = r == 0 ? 5 : r == 1 ? 6 : g.below(5);
+        double t = (kind == 0) ? x[i] : (kind == 1) ? x[0] : (kind == 2) ? x[n - 1]
+                 : (kind == 5) ? x[n - 2] + (x[n - 1] - x[n - 2]) * (g.coin() ? g.range(1e-6, 0.05) : g.range(0.05, 0.5))
+                 : (kind == 6) ? x[1] - (x[1] - x[0]) * (g.coin() ? g.range(1e-6, 0.05) : g.range(0.05, 0.5))
                  : x[i] + (x[i + 1] - x[i]) * g.range(0.01, 0.99);
         int cmp = g.below(ncomp);
         for (int ider = 0; ider <= 2 * m; ++ider)
-            emitSplder(m, n, ider, t, x, coef[cmp], val(cmp, ider, t), tag + (kind <= 2 ? ".knot" : kind >= 5 ? ".outside" : ".interior"));
+            emitSplder(m, n, ider, t, x, coef[cmp], val(cmp, ider, t), tag + (kind <= 2 ? ".knot" : kind == 5 ? ".lastearly" : kind == 6 ? ".firstlate" : ".interior"));
     }
     // ---- property predicates, attached to one more record (value at the first knot)
     emitSplder(m, n, 0, x[0], x, coef[0], val(0, 0, x[0]), tag + ".pred");
@@ -348,16 +364,14 @@ static void splineCase(vh::Rng& g, bool big, int forceMode = -1) {
         vh::P("spline_through_points", key + ".interp", worst / ysc, 1e-9);
     }
     // (2) "reports the true derivatives of its value", with no allowance taken from the implementation's own derivatives
-    //     (round 2): on one knot interval - or in an end region - the order-k output is sampled at degree+1 interior nodes; the
+    //     (round 2): on one knot interval the order-k output is sampled at degree+1 interior nodes; the
     //     polynomial through those samples is differentiated exactly and compared with the reported derivative, both as a chain
     //     (order k -> k+1) and from the value alone (order 0 -> d).  One more node checks the samples lie on a polynomial of
     //     that degree at all.  Errors are relative to cond = sum |l_j^(d)(t)| |sample_j| (the rounding scale of the reference).
     double worstChain = 0, worstFromValue = 0, worstPoly = 0;
     for (int r = 0; r < 4; ++r) {
-        int region = g.below(8);     // 0: left of the first knot, 1: right of the last, else an interior interval
-        double a, b;
-        if (region == 0) { a = x[0] - g.range(0.3, 1.5); b = x[0]; } else if (region == 1) { a = x[n - 1]; b = x[n - 1] + g.range(0.3, 1.5); }
-        else { int i = g.below(n - 1); a = x[i]; b = x[i + 1]; }
+        int i = r == 0 ? n - 2 : r == 1 ? 0 : g.below(n - 1);     // the last and the first interval always, then random ones
+        double a = x[i], b = x[i + 1];
         std::vector<double> nodes = insideNodes(a, b, degree + 1);
         double t = a + (b - a) * g.range(0.05, 0.95), extra = a + (b - a) * g.range(0.02, 0.98);
         for (int cmp = 0; cmp < ncomp; ++cmp) {
@@ -539,11 +553,12 @@ int main(int argc, char** argv) {
     }
     // guaranteed shares: every fit mode at least once, two bicubic surfaces
     for (int mode = 0; mode < 5; ++mode) splineCase(g, big, mode);
+    for (int layout = 2; layout <= 5; ++layout) { splineCase(g, big, 0, layout); splineCase(g, big, -1, layout); }
     bicubicCase(g); bicubicCase(g);
     // coverage floor (X1): cases that reached the result predicates
     vh::I("ponly").d(2).emit(); vh::O("ponly").d(2).emit(); vh::D("floor");
     double n = (double)args.n;
-    vh::P("coverage_floor", "c41.floor.spline_judged", std::max(0.0, 5 + 0.06 * n - g_splineJudged), 0);
+    vh::P("coverage_floor", "c41.floor.spline_judged", std::max(0.0, 13 + 0.06 * n - g_splineJudged), 0);
     vh::P("coverage_floor", "c41.floor.bicubic_judged", std::max(0.0, 2 + 0.01 * n - g_bicubicJudged), 0);
     vh::P("coverage_floor", "c41.floor.function_records", std::max(0.0, 0.6 * n - g_funcJudged), 0);
     return 0;
